@@ -340,7 +340,7 @@ func (c *Ctx) geRun() []*geVerdict {
 	if geMemo != nil {
 		return geMemo
 	}
-	cp := c.inContainerParam()
+	cp := c.inContainerParamByEvaluation()
 	spec := evalOracle(cp)
 	// LIKE: some operation must be applied to (a, b); which one the library does not define (it has none)
 	spec["Like"] = evalSpec{"Like", 2, []int{2, 1}, false}
@@ -505,4 +505,41 @@ func ruleGramEval(c *Ctx) []*Obligation {
 		}
 	}
 	return o.list
+}
+
+// inContainerParamByEvaluation: which parameter of In is the list - found by evaluating
+// In([1 2], 2) and In(2, [1 2]) with the type-unsafe operations (-1 if neither answers true).
+func (c *Ctx) inContainerParamByEvaluation() int {
+	h := c.newVxHarness("TypeUnsafeVariantOperations")
+	if h.fault != "" {
+		return -1
+	}
+	f := c.lookupMethod(h.mgrT, "In")
+	if f == nil {
+		return -1
+	}
+	mk := func() (mv, mv) {
+		e1, e2 := h.variant("Integer", int64(1)), h.variant("Integer", int64(2))
+		arr, _ := h.m.Call(c.MustFunc(pkgVariants, "", "VariantFromArray"), mSlice{[]mv{e1, e2}})
+		return arr, h.variant("Integer", int64(2))
+	}
+	isTrue := func(r mv, out mOutcome) bool {
+		tp, ok := r.(mTuple)
+		if out.kind != "ok" || !ok || len(tp) != 2 {
+			return false
+		}
+		if _, isNil := tp[0].(mNilT); isNil {
+			return false
+		}
+		return h.typeOf(tp[0]) == "Boolean" && h.payloadOf(tp[0]) == "true"
+	}
+	arr, item := mk()
+	if isTrue(h.m.Call(f, h.mgr, arr, item)) {
+		return 0
+	}
+	arr, item = mk()
+	if isTrue(h.m.Call(f, h.mgr, item, arr)) {
+		return 1
+	}
+	return -1
 }
